@@ -2,7 +2,9 @@ pub mod c01;
 pub mod c02;
 pub mod c03;
 pub mod c04;
+pub mod c06;
 pub mod c07;
+pub mod c08;
 pub mod c10;
 pub mod c11;
 pub mod c12;
@@ -23,7 +25,9 @@ pub fn run(ctx: &Ctx) -> i32 {
         "C03" => c03::run(ctx),
         "C04" => c04::run(ctx),
         "C05" => c07::run_c05(ctx),
+        "C06" => c06::run(ctx),
         "C07" => c07::run_c07(ctx),
+        "C08" => c08::run(ctx),
         "C09" => c07::run_c09(ctx),
         "C10" => c10::run(ctx),
         "C11" => c11::run(ctx),
@@ -50,7 +54,9 @@ pub fn replay(ctx: &Ctx, file: &Path) -> i32 {
         "C04" => ctx.replay_file(file, &|c: &str, case: &serde_json::Value| c04::replay_any(c, case, &ctx.known)),
         "C18" => ctx.replay_file(file, &|c: &str, case: &serde_json::Value| c18::replay_any(c, case, &ctx.known)),
         "C05" => ctx.replay_file(file, &|c: &str, case: &serde_json::Value| c07::replay_any(c, case, &ctx.known, c07::Mode::C05)),
+        "C06" => ctx.replay_file(file, &|c: &str, case: &serde_json::Value| c06::replay_any(c, case, &ctx.known)),
         "C07" => ctx.replay_file(file, &|c: &str, case: &serde_json::Value| c07::replay_any(c, case, &ctx.known, c07::Mode::C07)),
+        "C08" => ctx.replay_file(file, &|c: &str, case: &serde_json::Value| c08::replay_any(c, case, &ctx.known)),
         "C09" => ctx.replay_file(file, &|c: &str, case: &serde_json::Value| c07::replay_any(c, case, &ctx.known, c07::Mode::C09)),
         "C10" => ctx.replay_file(file, &|c: &str, case: &serde_json::Value| c10::replay_any(c, case, &ctx.known)),
         "C11" => ctx.replay_file(file, &|c: &str, case: &serde_json::Value| c11::replay_any(c, case, &ctx.known)),
